@@ -7,8 +7,8 @@ func checkC08(p *Program, tier string) *Result {
 	r.Explanation = "R-SEQ: in the session lookup called by the connection loop, a parity validator is applied to the request's sequence number before the table is consulted and a progression validator to (sequence stored under the request's session id, request's sequence); the validators' path conditions are extracted (loop-free path enumeration) and must accept only odd numbers / only last < current strictly; every error edge returns (nil, error); the continuation returned is the stored one, on the success edges only; R-NARROW: the comparison is not performed at a width narrower than the stored number. " +
 		"R-LOOP (b,c,d): a handler runs only after both validators passed, error edges close the connection, the entry is deleted when no continuation was registered and otherwise updated with the response's header (the reply's) and continuation."
 	ruleSeq(p, r)
-	ruleLoop(p, r, "bcd")
-	r.floor("R-LOOP", 6)
+	ruleLoop(p, r, "bcde")
+	r.floor("R-LOOP", 8)
 	r.Assumptions = append(r.Assumptions, "the response's header field is advanced to the reply header by Reply (decided under C06, R-MIRROR)")
 	return r
 }
